@@ -104,6 +104,7 @@ def check(col, prog, tier, profile, fixture=None):
                and not (crate.impl_of(m) or {}).get("of_trait") and not any(blk["term"]["k"] == "asm" for blk in m.blocks)]
     A = util.analyser(helpers)
     nblocks = 0
+    HELPER_REL.clear()
     for b in crate.bodies:
         asm = [(i, blk["term"]) for i, blk in enumerate(b.blocks) if blk["term"]["k"] == "asm"]
         if not asm:
@@ -172,6 +173,11 @@ def check(col, prog, tier, profile, fixture=None):
                     fb_ = fronts[0][0]
                     nm = fb_.name
                     trait = ((crate.impl_of(fb_) or {}).get("trait") or "").split("::")[-1]
+                elif b.arg_count == 2 and m.regs.get("al") and not m.stores:
+                    # a private comparison primitive shared by several operators (`is_below(a, b)`): it is specified by the
+                    # relation its flag test computes on (first argument, second argument); the operators built on it are
+                    # judged by what they answer for less / equal / greater / unordered (X2, X3)
+                    nm = "<relation>"
             P1, P2 = 1, 2
 
             def sym(v):
@@ -212,12 +218,18 @@ def check(col, prog, tier, profile, fixture=None):
                 else:
                     ok = res.get("lt") == c and res.get("gt") == a and res.get("eq") in (a, c)
                 why = "selects %s" % res
-            elif ok and nm in ("lt", "le"):
+            elif ok and nm in ("lt", "le", "<relation>"):
                 cond = m.regs.get("al")
                 outs = [o for o in t["operands"] if o["k"] == "out"]
                 okreg = len(outs) == 1 and outs[0]["reg"].strip('"') in ("eax", "al", "rax", "ax")
                 r_ = x87.relation_between((cond[0], sym(cond[1])), a, c) if cond else None
-                ok = okreg and r_ == (nm, False) and not m.stores
+                if nm == "<relation>":
+                    ok = okreg and r_ is not None and r_[0] in ("lt", "le", "gt", "ge") and not m.stores
+                    if ok:
+                        rel = r_[0] if not r_[1] else {"lt": "gt", "gt": "lt", "le": "ge", "ge": "le"}[r_[0]]
+                        HELPER_REL[b.key] = rel
+                else:
+                    ok = okreg and r_ == (nm, False) and not m.stores
                 why = "al := %s on (self, rhs)%s" % (r_, "" if okreg else "; output register is not eax")
                 # only bit 0 of the register is used
                 I = A(b)
@@ -307,7 +319,55 @@ def check(col, prog, tier, profile, fixture=None):
     lt, le, gt, ge, pc = (body_of("PartialOrd", n) for n in ("lt", "le", "gt", "ge", "partial_cmp"))
     if None in (lt, le, gt, ge, pc):
         raise Anchor("f80 must implement lt, le, gt, ge, partial_cmp explicitly")
+    def answers(b_):
+        """(T, F): outcomes for which b_ can answer true / false, by its paths (comparison primitives: lt/le/gt/ge and the
+        verified private relation helpers); None when a path's answer cannot be read"""
+        I_ = A(b_)
+        q1_, q2_ = ("param", 1, I_.names.get(1)), ("param", 2, I_.names.get(2))
+
+        def op_(p_):
+            return lambda x: x is not None and (x == p_ or x == ("ref", ("deref", p_)) or x == ("load", ("m0",), ("deref", p_)) or x == ("deref", p_))
+
+        keys_ = {k_: v_ for k_, v_ in {lt.key: "lt", le.key: "le", gt.key: "gt", ge.key: "ge"}.items() if k_ != b_.key}
+        keys_.update(HELPER_REL)
+        T, F = set(), set()
+        if not I_.final_states:
+            return None
+        for st_ in I_.final_states:
+            oc = _outcomes(st_, op_(q1_), op_(q2_), keys_)
+            r = util.ret_term(st_)
+            if r == mk_int(1):
+                tset = set(oc)
+            elif r == mk_int(0):
+                tset = set()
+            else:
+                tset = None
+                for e in st_.event_list():
+                    d_ = (e.fn.get("resolved") or e.fn).get("def") if e.kind == "call" else None
+                    if e.kind == "call" and e.res == r and d_ in keys_ and len(e.args) >= 2:
+                        x, y = e.args[0], e.args[1]
+                        av = list(e.extra.get("argvals") or []) + [None, None]
+                        sset = set(_PRIM[keys_[d_]])
+                        if (op_(q1_)(x) or op_(q1_)(av[0])) and (op_(q2_)(y) or op_(q2_)(av[1])):
+                            tset = oc & sset
+                        elif (op_(q2_)(x) or op_(q2_)(av[0])) and (op_(q1_)(y) or op_(q1_)(av[1])):
+                            tset = oc & {_FLIP[k_] for k_ in sset}
+            if tset is None:
+                return None
+            T |= tset
+            F |= set(oc) - tset
+        return T, F
+
+    def has_asm(b_):
+        return any(blk["term"]["k"] == "asm" for blk in b_.blocks)
+
     for b, base in ((gt, lt), (ge, le)):
+        if HELPER_REL and not has_asm(b):
+            tf = answers(b)
+            key = "%s|swapped-%s" % (fk(b), base.name)
+            if tf is not None and tf[0] == _PRIM[b.name] and not (tf[0] & tf[1]):
+                col.ok("X2" + sfx, b.loc(), key, "%s answers true exactly for %s (through the shared comparison primitive)" % (b.name, sorted(tf[0])))
+                continue
         I = A(b)
         for st in I.final_states:
             ret = util.ret_term(st)
@@ -321,6 +381,15 @@ def check(col, prog, tier, profile, fixture=None):
                 neg = any(s[0] == "un" and s[1] == "Not" for s in subterms(ret)) or (ret[0] == "bin" and ret[1] == "Eq" and ret[3] == mk_int(0))
                 col.violation("X2" + sfx, key, b.loc(), "%s is not %s with swapped arguments%s" % (b.path, base.name, ": it is a boolean negation of another comparison, which is true for NaN operands" if neg else ""))
     for b in (lt, le):
+        if HELPER_REL and not has_asm(b):
+            # lt / le built on a shared private comparison primitive: true exactly for less / less-or-equal
+            tf = answers(b)
+            key = "%s|not-a-negation" % fk(b)
+            if tf is not None and tf[0] == _PRIM[b.name] and not (tf[0] & tf[1]):
+                col.ok("X2" + sfx, b.loc(), key, "%s answers true exactly for %s (through the shared comparison primitive)" % (b.name, sorted(tf[0])))
+            else:
+                col.violation("X2" + sfx, key, b.loc(), "%s does not answer true exactly for the outcomes %s of the comparison (it answers true for %s)" % (b.path, sorted(_PRIM[b.name]), sorted(tf[0]) if tf else "?"))
+            continue
         I = A(b)
         for st in I.final_states:
             ret = util.ret_term(st)
@@ -338,6 +407,7 @@ def check(col, prog, tier, profile, fixture=None):
         return lambda x: x is not None and (x == p_ or x == ("ref", ("deref", p_)) or x == ("load", ("m0",), ("deref", p_)) or x == ("deref", p_))
 
     keys = {lt.key: "lt", le.key: "le", gt.key: "gt", ge.key: "ge"}
+    keys.update(HELPER_REL)
     want_of = {"L": "Less", "E": "Equal", "G": "Greater", "U": "None"}
     covered = set()
     bad = None
@@ -381,7 +451,7 @@ def check(col, prog, tier, profile, fixture=None):
     else:
         b = crate.by_key[[i["key"] for i in eqimp["items"] if i["name"] == "eq"][0]]
         I = A(b)
-        fam = {lt.key, le.key, gt.key, ge.key, pc.key}
+        fam = {lt.key, le.key, gt.key, ge.key, pc.key} | set(HELPER_REL)
         okk = True
         for st in I.final_states:
             calls = [e for e in st.event_list() if e.kind == "call"]
@@ -399,6 +469,7 @@ def check(col, prog, tier, profile, fixture=None):
             return lambda x: x is not None and (x == p_ or x == ("ref", ("deref", p_)) or x == ("load", ("m0",), ("deref", p_)) or x == ("deref", p_))
 
         keys_e = {lt.key: "lt", le.key: "le", gt.key: "gt", ge.key: "ge", pc.key: "partial_cmp"}
+        keys_e.update(HELPER_REL)
         exact = bool(Ie.final_states)
         saw_equal = False
         for st in Ie.final_states:
@@ -558,6 +629,7 @@ def _zero_const_names(crate, A):
     return out
 
 
+HELPER_REL = {}   # private asm comparison primitive -> the relation it computes on (arg 1, arg 2)
 _PRIM = {"lt": {"L"}, "le": {"L", "E"}, "gt": {"G"}, "ge": {"G", "E"}, "eq": {"E"}, "ne": {"L", "G", "U"}}
 _FLIP = {"L": "G", "G": "L", "E": "E", "U": "U"}
 
